@@ -819,6 +819,8 @@ def check_cut(case, v):
             v.label("cut:non-monotone")
             return v.discarded("cut:non-monotone")
     if not abs(vf - vfirst) <= allowed:
+        if vf < 0.02 and vf < vfirst:
+            cls0 += "/vf<0.02"  # the root search ended in the slow-wall regime where findMatching returns non-solutions
         v.fail("cut-fastest", cls0,
                f"{first}-T range ends at T({vfirst:.8g}) = {Tfirst:.8g}: fastestDeflag() = {vf:.10g}, expected "
                f"{vfirst:.10g} (difference {vf - vfirst:.3e}, allowed {allowed:.2e}); vMin = {vmin:.6g}, vJ = {vJ2:.8g}",
